@@ -97,40 +97,67 @@ class BinaryAxisOperationBase(AxisOperationBase):
         self._lhs = lhs if isinstance(lhs, OperableAxis | ComputedAxis | Group) else LiteralAxis(lhs)
         self._rhs = rhs if isinstance(rhs, OperableAxis | ComputedAxis | Group) else LiteralAxis(rhs)
 
+    _PRECEDENCE: typing.ClassVar[int | None] = None
+    """The precedence of an infix operator in the shape string grammar (None for functions)."""
+
+    def _operand_str(self, operand: OperableAxis, *, is_rhs: bool) -> str:
+        """
+        Print an operand of an infix operator, in parentheses if it would otherwise be parsed differently.
+
+        The string grammar associates every operator (including ^) to the left.
+        """
+        operation = operand._computation if isinstance(operand, ComputedAxis) else operand  # noqa: SLF001
+        precedence = operation._PRECEDENCE if isinstance(operation, BinaryAxisOperationBase) else None  # noqa: SLF001
+        if precedence is None or self._PRECEDENCE is None:
+            return str(operand)
+        if precedence < self._PRECEDENCE or (is_rhs and precedence == self._PRECEDENCE):
+            return f"({operand})"
+        return str(operand)
+
 
 class Add(BinaryAxisOperationBase):
+    _PRECEDENCE = 1
+
     def __str__(self) -> str:
         if isinstance(self._lhs, LiteralAxis) and isinstance(self._rhs, LiteralAxis):
             return f"{self._lhs.value + self._rhs.value}"
-        return f"{self._lhs}+{self._rhs}"
+        return f"{self._operand_str(self._lhs, is_rhs=False)}+{self._operand_str(self._rhs, is_rhs=True)}"
 
 
 class Subtract(BinaryAxisOperationBase):
+    _PRECEDENCE = 1
+
     def __str__(self) -> str:
         if isinstance(self._lhs, LiteralAxis) and isinstance(self._rhs, LiteralAxis):
             return f"{self._lhs.value - self._rhs.value}"
-        return f"{self._lhs}-{self._rhs}"
+        return f"{self._operand_str(self._lhs, is_rhs=False)}-{self._operand_str(self._rhs, is_rhs=True)}"
 
 
 class Divide(BinaryAxisOperationBase):
+    _PRECEDENCE = 2
+
     def __str__(self) -> str:
         if isinstance(self._lhs, LiteralAxis) and isinstance(self._rhs, LiteralAxis):
             return f"{self._lhs.value // self._rhs.value}"
-        return f"{self._lhs}/{self._rhs}"
+        return f"{self._operand_str(self._lhs, is_rhs=False)}/{self._operand_str(self._rhs, is_rhs=True)}"
 
 
 class Multiply(BinaryAxisOperationBase):
+    _PRECEDENCE = 2
+
     def __str__(self) -> str:
         if isinstance(self._lhs, LiteralAxis) and isinstance(self._rhs, LiteralAxis):
             return f"{self._lhs.value * self._rhs.value}"
-        return f"{self._lhs}*{self._rhs}"
+        return f"{self._operand_str(self._lhs, is_rhs=False)}*{self._operand_str(self._rhs, is_rhs=True)}"
 
 
 class Exp(BinaryAxisOperationBase):
+    _PRECEDENCE = 3
+
     def __str__(self) -> str:
         if isinstance(self._lhs, LiteralAxis) and isinstance(self._rhs, LiteralAxis):
             return f"{self._lhs.value**self._rhs.value}"
-        return f"{self._lhs}^{self._rhs}"
+        return f"{self._operand_str(self._lhs, is_rhs=False)}^{self._operand_str(self._rhs, is_rhs=True)}"
 
 
 class Max(BinaryAxisOperationBase):
